@@ -416,6 +416,9 @@ fn main() {
                 while v.len() < n { v.push(b' '); }
                 v
             };
+            // (a str8 / str16 length byte may itself be printable and then looks like the first byte of
+            // the run: also try the run without its first one or two bytes)
+            let runs: Vec<(usize, usize)> = runs.into_iter().flat_map(|(st, en)| (0..3usize).filter(move |k| en - st >= 4 + k).map(move |k| (st + k, en))).collect();
             for (st, en) in runs {
                 let n = en - st;
                 for head in ["{\"selector\":[]}", "{\"selector\":[{}]}", "{\"selector\":[],\"action\":null}", "{}", "[]", "null", "", "+js(", "\\", "\"", ",,,,", "{{1}}", "*", "||", "#@#", ":style(", "\u{0}"] {
